@@ -7,7 +7,9 @@ META = {
     "bounds": "key index 0..14 (all 15 keys); transposition intervals and pitches are UNBOUNDED symbolic integers "
               "(the code only branches on n % 12, so each of the 12 residue paths covers every integer of its class)",
     "outside_claim": [],
-    "stubs": ["logging disabled"],
+    "stubs": ["logging disabled",
+              "class-level containers of CircleOfFifths / MusicMapping / Key are reset to their import-time contents at the start of "
+              "every path (a path stands for a fresh process)"],
 }
 
 # independent reference: tonic pitch class of every key name
